@@ -29,6 +29,8 @@ var alphabet = []fragment{
 	{"mix-ind", "\t  OR d = 4"},
 	{"sp-tab-ind", "  \tAND e = 5"},
 	{"tab-sp-tab-ind", "\t \tOR f = 6"},
+	{"emoji-str", "WHERE s = '😀 x' AND t = 1"},
+	{"emoji-cmt", "SELECT é -- 🚀 done"},
 	{"lower-kw", "select a from t"},
 	{"lower-long-kw", "refresh materialized view v1"},
 	{"mixed-long-kw", "With Recursive w1 As (Select Distinct a From t Intersect Select b From u)"},
